@@ -66,6 +66,30 @@ func decodeChunk(b *commit.Buffer, chunk commit.Chunk, isStr map[uint32]bool) []
 	return out
 }
 
+// typedReads: what the width-generic accessors Reader.Int / Reader.Uint return for every numeric
+// entry of the buffer (the int and uint columns read their puts through them)
+func typedReads(b *commit.Buffer, chunks []commit.Chunk, s *codecSummary) []string {
+	var out []string
+	r := commit.NewReader()
+	for _, ch := range chunks {
+		r.Range(b, ch, func(r *commit.Reader) {
+			for r.Next() {
+				v := r.Bytes()
+				if r.IsString() || (len(v) != 2 && len(v) != 4 && len(v) != 8) {
+					continue
+				}
+				var n uint64
+				for _, x := range v {
+					n = n<<8 | uint64(x)
+				}
+				out = append(out, fmt.Sprintf("(%d, %d, (%d)%%Z, %d)", len(v), n, int64(r.Int()), uint64(r.Uint())))
+				s.TypedReads++
+			}
+		})
+	}
+	return out
+}
+
 func sameOps(a, b []cop) bool {
 	if len(a) != len(b) {
 		return false
@@ -143,6 +167,7 @@ type codecSummary struct {
 	Engine    string         `json:"engine"`
 	Cases     int            `json:"cases"`
 	Shards    []string       `json:"shards"`
+	TypedReads int           `json:"typed_reads"`
 	Failures  []string       `json:"failures"` // wire / rewrite checks done here
 	Ops       int            `json:"ops"`
 	Kinds     map[string]int `json:"op_kinds"`
@@ -330,19 +355,20 @@ func cmdCodec(args []string) {
 	os.MkdirAll(*out, 0o755)
 	rng := NewRng(*seed)
 	s := codecSummary{Engine: "codec", Kinds: map[string]int{}, Widths: map[string]int{}, Deltas: map[string]int{}}
-	var cases []string
+	var cases, reads []string
 	shardNo, firstCase, shardBytes := 0, 0, 0
 	flush := func() {
 		if len(cases) == 0 {
 			return
 		}
 		name := filepath.Join(*out, fmt.Sprintf("codec_%05d.v", shardNo))
-		txt := "From Coq Require Import NArith List.\nFrom ColumnV Require Import Bytes Ops Buffer CodecCheck.\nImport ListNotations.\nLocal Open Scope N_scope.\n" +
-			fmt.Sprintf("Definition M := Eval vm_compute in check_ccases %d [\n %s].\nPrint M.\n", firstCase, strings.Join(cases, ";\n "))
+		txt := "From Coq Require Import NArith ZArith List.\nFrom ColumnV Require Import Bytes Ops Buffer CodecCheck ReadInt.\nImport ListNotations.\nLocal Open Scope N_scope.\n" +
+			fmt.Sprintf("Definition M := Eval vm_compute in check_ccases %d [\n %s].\nPrint M.\n", firstCase, strings.Join(cases, ";\n ")) +
+			fmt.Sprintf("Definition R := Eval vm_compute in check_reads %d [\n %s].\nPrint R.\n", firstCase, strings.Join(reads, ";\n "))
 		os.WriteFile(name, []byte(txt), 0o644)
 		s.Shards = append(s.Shards, name)
 		firstCase += len(cases)
-		cases, shardBytes = nil, 0
+		cases, reads, shardBytes = nil, nil, 0
 		shardNo++
 	}
 	for i := 0; i < *n; i++ {
@@ -399,6 +425,7 @@ func cmdCodec(args []string) {
 		}
 		c := fmt.Sprintf("mkcc [%s]\n   %s [%s] %d\n   [%s]", strings.Join(opsS, "; "), coqBytes(raw), strings.Join(hs, "; "), uint32(last), strings.Join(ranges, "; "))
 		cases = append(cases, c)
+		reads = append(reads, "["+strings.Join(typedReads(b, chunks, &s), "; ")+"]")
 		shardBytes += len(c)
 		if len(s.Samples) < 2 && len(c) < 1500 {
 			s.Samples = append(s.Samples, c)
